@@ -71,6 +71,7 @@ def setup_run(case, schedule, opts, tag='run'):
                         schedule=schedule)
     K.pool_delay_p = knobs.get('pool_delay_p', 0.0)
     K.slow_pool = knobs.get('slow_pool') or None
+    K.slow_thread = knobs.get('slow_thread') or None
     R.REC = R.Recorder()
     R.install_fs_seams(root)
     R.register_backends()
